@@ -1,0 +1,15 @@
+//go:build verif
+// +build verif
+
+package tensor
+
+// VerifHook, when set, receives an event at the instrumented points of the package
+// (pool traffic, metadata writes). It is nil unless a verification harness installs a handler;
+// a handler may block, which turns the hook into a scheduling gate.
+var VerifHook func(event string, size int, id uintptr)
+
+func verifHook(event string, size int, id uintptr) {
+	if h := VerifHook; h != nil {
+		h(event, size, id)
+	}
+}
